@@ -1,14 +1,19 @@
 // TRUSTED: small pieces of std the extracted types mention.
 pub mod atomic {
+    use vstd::prelude::*;
     // a relaxed atomic used as a plain cell; no claim about concurrent use (C20 is not applicable)
     #[verifier::external_body]
     pub struct AtomicU64 { v: u64 }
     pub enum Ordering { Relaxed }
     impl AtomicU64 {
-        #[verifier::external_body] pub fn new(v: u64) -> AtomicU64 { unimplemented!() }
+        // the value as seen through exclusive access (new / get_mut); load/store through `&self` are left
+        // unspecified (interior mutability; C20 is not applicable)
+        pub uninterp spec fn g_val(&self) -> u64;
+        #[verifier::external_body] pub fn new(v: u64) -> (r: AtomicU64) ensures r.g_val() == v { unimplemented!() }
         #[verifier::external_body] pub fn load(&self, o: Ordering) -> u64 { unimplemented!() }
         #[verifier::external_body] pub fn store(&self, v: u64, o: Ordering) { unimplemented!() }
-        #[verifier::external_body] pub fn get_mut(&mut self) -> &mut u64 { unimplemented!() }
+        #[verifier::external_body] pub fn get_mut(&mut self) -> (r: &mut u64)
+            ensures *r == old(self).g_val(), final(self).g_val() == *final(r) { unimplemented!() }
     }
 }
 
